@@ -119,6 +119,64 @@ func checkC12(c *Ctx, r *Report) {
 		o.NonTrivial = true
 	}
 
+	// the engine-independent part of the generated file - everything routes.hbs writes before
+	// `func RegisterRoutes` (the validator instance and its options, the custom-validator hook,
+	// shared declarations) - is the same Go text in all five engines
+	{
+		prelude := func(en string) ([]string, string) {
+			eng := c.T.Engines[en]
+			var src strings.Builder
+			for _, st := range eng.Routes.Prog.Body {
+				switch n := st.(type) {
+				case *hast.ContentStatement:
+					src.WriteString(n.Value)
+				case *hast.MustacheStatement:
+					src.WriteString(" " + mustachePlaceholder(n) + " ")
+				case *hast.PartialStatement:
+					src.WriteString("\n/*partial*/ P_" + partialName(n) + "\n")
+				default:
+					src.WriteString("\n")
+				}
+			}
+			ts := goToks(src.String())
+			i := tokSeqIndex(ts, "func", "RegisterRoutes")
+			if i < 0 {
+				return nil, eng.Routes.File + ":1"
+			}
+			return tokStrings(ts[:i]), eng.Routes.File + ":1"
+		}
+		refToks, refSite := prelude(engines[0])
+		viol := ""
+		sites := []string{refSite}
+		if refToks == nil {
+			viol = engines[0] + ": `func RegisterRoutes` not found in routes.hbs"
+		}
+		for _, en := range engines[1:] {
+			ts, site := prelude(en)
+			sites = append(sites, site)
+			if ts == nil {
+				viol = en + ": `func RegisterRoutes` not found in routes.hbs"
+				continue
+			}
+			for i := 0; i < len(ts) || i < len(refToks); i++ {
+				a, b := "<end>", "<end>"
+				if i < len(refToks) {
+					a = refToks[i]
+				}
+				if i < len(ts) {
+					b = ts[i]
+				}
+				if a != b {
+					lo := max(0, i-4)
+					viol = fmt.Sprintf("%s: the shared declarations of routes.hbs differ between %s and %s at `... %s` : %q vs %q - one engine's generated file validates, registers or declares something the others do not", site, engines[0], en, strings.Join(ts[lo:min(i, len(ts))], " "), a, b)
+					break
+				}
+			}
+		}
+		o := r.add("C12.a", "tpl-siblings", "routes.hbs:shared-declarations", "what routes.hbs declares before RegisterRoutes (validator instance and options, custom validator registration) is token-for-token the same in the five engines", engines, sites, viol)
+		o.NonTrivial = true
+	}
+
 	// ---- C12.b key sets
 	ref := c.T.Engines[engines[0]]
 	for _, en := range engines[1:] {
